@@ -66,6 +66,30 @@ def records(ctx):
         mid = tuple(s_ // 2 for s_ in sh)
         fs.mask[mid] = True
         add('project', {'s': enc(fs), 'ns': list(ns)}, observe(lambda: fs.project(list(ns))), site='Spectrum.project')
+    # 2e. projection to the SAME sizes (m = n on every axis): the identity on unfolded spectra, fold(unfold(f)) on folded ones
+    #     (a mask on an ambiguous cell spreads to its mirror); 1-3 dimensions, even and odd totals, masks on the diagonal
+    for k in range(8 if ctx.quick else 48):
+        ndim = [1, 2, 3, 2][k % 4]
+        sh = rand_shape(r2, ndim, 2, {1: 10, 2: 6, 3: 4}[ndim])
+        if k % 2 == 0:
+            sh[0] += (sum(x - 1 for x in sh) % 2)       # even total sample size: ambiguous entries exist
+        fs = rand_spectrum(r2, sh, folded=(k % 4 != 3), labels=rand_labels(r2, ndim), mask_mode=['random', 'single', 'corners'][k % 3])
+        if fs.folded and ndim >= 2:
+            # mask ONE ambiguous cell (derived count = half the total) after folding, leaving its mirror unmasked
+            tot = sum(s_ - 1 for s_ in sh)
+            amb = [ix for ix in np.ndindex(*sh) if 2 * sum(ix) == tot and tuple(s_ - 1 - i for s_, i in zip(sh, ix)) != ix]
+            if amb:
+                ix = amb[k % len(amb)]
+                mir = tuple(s_ - 1 - i for s_, i in zip(sh, ix))
+                fs.mask[ix] = True
+                fs.mask[mir] = False
+        ns = [s_ - 1 for s_ in sh]
+        add('project', {'s': enc(fs), 'ns': ns}, observe(lambda: fs.project(ns)), site='Spectrum.project[same sizes]')
+        # ... and with only some axes unchanged
+        if ndim >= 2:
+            ns2 = list(ns)
+            ns2[k % ndim] = max(1, ns2[k % ndim] - 1)
+            add('project', {'s': enc(fs), 'ns': ns2}, observe(lambda: fs.project(ns2)), site='Spectrum.project[some sizes unchanged]')
     # 2d. the same object projected twice: both results are the projection of the object as it was, and the object (values,
     #     mask, folding, labels) is left as it was - folded spectra in particular (projection unfolds internally)
     for k in range(6 if ctx.quick else 40):
@@ -82,13 +106,18 @@ def records(ctx):
         add('unchanged', {'law': 'ObjectUnchangedByProject', 'ns': ns}, {'s': before, 't': after}, site='Spectrum.project')
     # 2b. the projection weights are shared (memoised) with Spectrum.from_data_dict: after building spectra from
     #     data dictionaries that project n -> m, the weights and project() for the same (m, n) must be unchanged
-    for (n, m) in ([(10, 6), (7, 3)] if ctx.quick else [(10, 6), (7, 3), (16, 9), (24, 5)]):
+    for (n, m) in ([(10, 6), (37, 13), (43, 29)] if ctx.quick else [(10, 6), (7, 3), (16, 9), (24, 5), (37, 13), (43, 29), (53, 2)]):   # the larger pairs occur nowhere else in the run: their weight tables are first touched by the data-dictionary path
         dd = {}
+        ders = rng.sample(range(1, n), 3)       # only three derived-allele counts occur: the data path touches few weight rows
         for s_ in range(40):
-            der = rng.randint(0, n)
+            der = rng.choice(ders)
             dd['c_%d' % s_] = {'segregating': ('A', 'T'), 'outgroup_allele': 'A', 'calls': {'P': (n - der, der)}}
         for rep in range(3):
             dadi.Spectrum.from_data_dict(dd, ['P'], [m], polarized=True)
+        # project() for the same (n, m) straight after the data-dictionary path (which may have touched only some rows of a
+        # shared weight table), before anything else asks for the weights
+        fs0 = rand_spectrum(rng, [n + 1], folded=False, mask_mode='corners')
+        add('project', {'s': enc(fs0), 'ns': [m]}, observe(lambda: fs0.project([m])), site='Spectrum.project[after from_data_dict]')
         for h in range(0, n + 1):
             w = Numerics._cached_projection(m, n, h)
             add('weights', {'m': m, 'n': n, 'h': h, 'after': 'from_data_dict'}, {'w': common.rats(w)}, site='Numerics._cached_projection')
